@@ -216,3 +216,275 @@ func GenHosts(r *core.Rand) string {
 	}
 	return text
 }
+
+// ---- hosts files the decoder rejects, and other forms of the file ----
+//
+// hostsfile.LocalhostAliases hands the file to github.com/kevinburke/hostsfile/lib.Decode, which is all or
+// nothing: on the first line it cannot read (fewer than two fields, a first field that is not an address, a
+// line of 64 KiB or more) it returns an EMPTY Hostsfile and the error, wherever the line is. NewHTTPProxy
+// fails with that error. What follows is the harness's own reading of that contract (ReadHostsStrict), the
+// line-by-line reading that skips such lines (ReadHostsLoose: what the machine's resolver makes of the file —
+// the yardstick for "every loopback alias of the file") and the generator of such files.
+
+// HostsMaxToken is bufio.MaxScanTokenSize: a line of this many bytes (without its \n) ends the scan.
+const HostsMaxToken = 64 * 1024
+
+func isHostsSpace(c byte) bool { return c == ' ' || c == '\t' || c == '\n' || c == '\v' || c == '\f' || c == '\r' }
+
+// hostsFieldsASCII: strings.Fields over ASCII white space only (the generator writes no other space characters).
+func hostsFieldsASCII(s string) []string {
+	var out []string
+	start := -1
+	for i := 0; i < len(s); i++ {
+		if isHostsSpace(s[i]) {
+			if start >= 0 {
+				out = append(out, s[start:i])
+				start = -1
+			}
+		} else if start < 0 {
+			start = i
+		}
+	}
+	if start >= 0 {
+		out = append(out, s[start:])
+	}
+	return out
+}
+
+// hostsAddr: the first field as an address (an IP literal; an IPv6 one may carry a %zone, which is dropped).
+func hostsAddr(f string) (string, bool) {
+	a, err := netip.ParseAddr(f)
+	if err != nil {
+		return "", false
+	}
+	return a.WithZone("").String(), true
+}
+
+// readHostsLine: "" + nil record for a blank or comment line; errKind "too-long" | "entry" | "address".
+func readHostsLine(raw string) (rec *HostsRecord, errKind string) {
+	if len(raw) >= HostsMaxToken {
+		return nil, "too-long"
+	}
+	f := hostsFieldsASCII(raw)
+	if len(f) == 0 || f[0][0] == '#' {
+		return nil, ""
+	}
+	if len(f) < 2 {
+		return nil, "entry"
+	}
+	if _, ok := hostsAddr(f[0]); !ok {
+		return nil, "address"
+	}
+	// the address as written, without the zone
+	ip := f[0]
+	if i := strings.IndexByte(ip, '%'); i >= 0 {
+		ip = ip[:i]
+	}
+	rec = &HostsRecord{IP: ip}
+	for _, n := range f[1:] {
+		if n[0] == '#' {
+			break
+		}
+		rec.Names = append(rec.Names, n)
+	}
+	return rec, ""
+}
+
+// ReadHostsStrict: the records of the text, or the kind of the first line that cannot be read (and nothing).
+func ReadHostsStrict(text string) ([]HostsRecord, string) {
+	var out []HostsRecord
+	for _, line := range strings.Split(text, "\n") {
+		rec, kind := readHostsLine(line)
+		if kind != "" {
+			return nil, kind
+		}
+		if rec != nil {
+			out = append(out, *rec)
+		}
+	}
+	return out, ""
+}
+
+// ReadHostsLoose: the records of the lines that can be read.
+func ReadHostsLoose(text string) []HostsRecord {
+	var out []HostsRecord
+	for _, line := range strings.Split(text, "\n") {
+		if rec, kind := readHostsLine(line); kind == "" && rec != nil {
+			out = append(out, *rec)
+		}
+	}
+	return out
+}
+
+// HostsAddrNeverResolved: a first field that is no IP literal and that no resolver can turn into an address
+// (Decode hands the field to net.ResolveIPAddr, which looks a host NAME up; whether "localhost x" or "12x.0.0.1 x"
+// is an error depends on the machine's resolver, so the generator stays clear of such fields): it has a byte no
+// host name has, or it is made of digits and dots with four or more parts, one of them above 255 or more than four
+// (no inet_aton short form).
+func HostsAddrNeverResolved(f string) bool {
+	if _, err := netip.ParseAddr(f); err == nil {
+		return false
+	}
+	numeric := true
+	for i := 0; i < len(f); i++ {
+		c := f[i]
+		switch {
+		case c >= '0' && c <= '9', c == '.':
+		case c >= 'a' && c <= 'z', c >= 'A' && c <= 'Z', c == '-', c == '_':
+			numeric = false
+		default:
+			return true
+		}
+	}
+	if !numeric {
+		return false
+	}
+	parts := strings.Split(f, ".")
+	if len(parts) < 4 {
+		return false
+	}
+	for _, p := range parts {
+		if p == "" || len(p) > 1 && p[0] == '0' {
+			return false
+		}
+	}
+	if len(parts) > 4 {
+		return true
+	}
+	for _, p := range parts {
+		if len(p) > 3 || (len(p) == 3 && p > "255") {
+			return true
+		}
+	}
+	return false
+}
+
+var hostsBadAddrs = []string{"127.0.0.1.5", "300.1.1.1", "127.0.0.256", "127.0.0.1:80", "[::1]", "[127.0.0.1]", "127.0.0.1/8", "::1/128", "::g", ":::1", "::1::", "1:2:3:4:5:6:7",
+	"1:2:3:4:5:6:7:8:9", "127.0.0.1,", "127.0.0.1;", "127.0.0.1#dev", "::1%", "127.0.0.1%lo", "%eth0", "\"127.0.0.1\"", "127.0.0.1\\", "127.0.0.1\x00", "\xef\xbb\xbf127.0.0.1", "127,0,0,1",
+	"::ffff:127.0.0.1.1", "::ffff:300.0.0.1", "12345::1", "127.0.0.1=", "<127.0.0.1>", "127.0.0.1|", "*", "@", "127.0.0.1:", ":127.0.0.1", "0.0.0.0.0", "256.256.256.256"}
+
+// HostsBadAddrs: the pool of first fields that are no address (each HostsAddrNeverResolved).
+func HostsBadAddrs() []string { return append([]string{}, hostsBadAddrs...) }
+
+// GenHostsBadLine draws one line the decoder rejects, with its kind and its class.
+func GenHostsBadLine(r *core.Rand) (line, kind, class string) {
+	sep := func() string { return core.Pick(r, []string{" ", "\t", "  "}) }
+	pad := func(s string) string {
+		if r.Chance(25) {
+			s = core.Pick(r, []string{" ", "\t"}) + s
+		}
+		if r.Chance(25) {
+			s += core.Pick(r, []string{" ", "\t", "  "})
+		}
+		return s
+	}
+	switch r.Intn(10) {
+	case 0, 1, 2:
+		// an address and no name: what a VPN client or an editing slip leaves behind
+		return pad(core.Pick(r, append(append([]string{}, hostsLoopIPs...), hostsOtherIPs...))), "entry", "address-without-name"
+	case 3:
+		return pad(core.Pick(r, append(append([]string{}, hostsLoopNames...), "devbox", "localhost", genHostName(r)))), "entry", "lone-name"
+	case 4:
+		return pad(core.Pick(r, []string{"\xef\xbb\xbf", "-", "127.0.0.1#x", "::1#", "x#y"})), "entry", "lone-token"
+	case 5, 6, 7:
+		a := core.Pick(r, hostsBadAddrs)
+		l := a
+		for i, k := 0, r.Range(1, 3); i < k; i++ {
+			l += sep() + core.Pick(r, hostsLoopNames)
+		}
+		return pad(l), "address", "unparsable-address"
+	case 8:
+		// a well-formed address spoilt by one byte
+		a := core.Pick(r, hostsLoopIPs)
+		i := r.Intn(len(a) + 1)
+		a = a[:i] + core.Pick(r, []string{"/", ":", "%", "[", "]", ",", "\x00", "\x7f", "\xc3\xa9", "g:", "..", "*"}) + a[i:]
+		if !HostsAddrNeverResolved(a) {
+			a = "[" + a
+		}
+		return a + sep() + core.Pick(r, hostsLoopNames), "address", "spoilt-address"
+	}
+	// a line of 64 KiB or more: a loopback record with very many names, or a long comment
+	if r.Bool() {
+		return "# " + strings.Repeat("x", HostsMaxToken+r.Intn(40)), "too-long", "comment-too-long"
+	}
+	var b strings.Builder
+	b.WriteString(core.Pick(r, hostsLoopIPs))
+	for b.Len() < HostsMaxToken {
+		b.WriteString(" " + core.Pick(r, hostsLoopNames))
+	}
+	return b.String(), "too-long", "record-too-long"
+}
+
+// GenHostsMalformed draws a hosts file with well-formed loopback alias records (GenHosts) and one to three lines the
+// decoder rejects, at the beginning, in the middle or at the end; where: "begin" | "middle" | "end" of the first one.
+func GenHostsMalformed(r *core.Rand) (text string, classes []string, where string) {
+	base := GenHosts(r.Sub())
+	if loop, _ := LoopbackNames(ParseHosts(base)); len(loop) == 0 || (len(loop) == 1 && strings.EqualFold(loop[0], "localhost")) {
+		base = "127.0.1.1" + core.Pick(r, []string{" ", "\t"}) + core.Pick(r, []string{"devbox", "DevBox", "build-01"}) + "\n" + base +
+			core.Pick(r, []string{"", "\n"}) + "::1 ip6-localhost ip6-loopback\n"
+	}
+	lines := strings.Split(strings.TrimSuffix(base, "\n"), "\n")
+	final := strings.HasSuffix(base, "\n")
+	where = core.Pick(r, []string{"begin", "middle", "end"})
+	n := core.Pick(r, []int{1, 1, 1, 2, 3})
+	for i := 0; i < n; i++ {
+		l, _, class := GenHostsBadLine(r)
+		classes = append(classes, class)
+		at := 0
+		switch {
+		case i > 0:
+			at = r.Intn(len(lines) + 1)
+		case where == "end":
+			at = len(lines)
+		case where == "middle" && len(lines) > 1:
+			at = r.Range(1, len(lines)-1)
+		case where == "middle":
+			at, where = len(lines), "end"
+		}
+		lines = append(lines[:at:at], append([]string{l}, lines[at:]...)...)
+	}
+	eol := "\n"
+	if r.Chance(15) {
+		eol = "\r\n"
+	}
+	text = strings.Join(lines, eol)
+	if final || r.Chance(50) {
+		text += eol
+	}
+	return text, classes, where
+}
+
+// GenHostsForm draws a well-formed hosts file in one of the forms a machine's file takes besides GenHosts' own:
+// CRLF line ends, no line feed at the end, CR-only line ends (one line to the decoder), only comments and blank
+// lines, a record or a comment just below the 64 KiB limit, records without names, names with a '#' inside.
+func GenHostsForm(r *core.Rand) (text, form string) {
+	base := GenHosts(r.Sub())
+	switch r.Intn(8) {
+	case 0, 1:
+		return strings.ReplaceAll(base, "\n", "\r\n"), "crlf"
+	case 2:
+		return strings.TrimSuffix(base, "\n") + core.Pick(r, []string{"", "\n\n\n", "\n \t \n"}), "no-final-line-feed-or-blank-tail"
+	case 3:
+		return strings.ReplaceAll(strings.TrimSuffix(base, "\n"), "\n", "\r") + "\r", "cr-only"
+	case 4:
+		return core.Pick(r, []string{"# nothing here\n", "\n\n", "# a\n#b\n\n   # 127.0.0.1 hidden\n", " \t\n", "#", "\r\n\r\n# c\r\n"}), "no-records"
+	case 5:
+		// the longest line the scanner still delivers
+		var b strings.Builder
+		b.WriteString(core.Pick(r, hostsLoopIPs))
+		for {
+			n := " " + core.Pick(r, hostsLoopNames)
+			if b.Len()+len(n) > HostsMaxToken-1 {
+				break
+			}
+			b.WriteString(n)
+		}
+		for b.Len() < HostsMaxToken-1 {
+			b.WriteString(" ")
+		}
+		return base + b.String() + "\n", "record-just-below-the-line-limit"
+	case 6:
+		return base + "127.0.0.1 # " + core.Pick(r, hostsLoopNames) + "\n::1\t#x\n", "record-without-names"
+	}
+	return base + "127.0.0.1 Half#Comment dev#1\n", "hash-inside-a-name"
+}
